@@ -108,6 +108,12 @@ func (p *panicInfo) site() string {
 		return "/vng.readMetadata[unmarshal-of-unvalidated-value]"
 	}
 	s := p.frames[0]
+	if strings.HasPrefix(s, "/vng.(*") && p.kind() == "nil-deref" {
+		// A null node inside the VNG metadata tree (Field.Values, Array.Values,
+		// Nulls.Values, ...: NewBuilder maps a nil Metadata to a nil Builder)
+		// is dereferenced by whichever method touches it first.
+		return "/vng[nil-metadata-node]"
+	}
 	if helper(s) {
 		for _, f := range p.frames[1:] {
 			if !helper(f) {
@@ -496,29 +502,58 @@ func vngPreflight(meta []byte, rep *reporter) bool {
 	return ok
 }
 
-// segmentLimit is the largest segment MemLength/Length the harness lets the
-// VNG reader see once C11/alloc/vng is a listed finding (see vngScreen).
-const segmentLimit = 32 << 20
+// Once C11/alloc/vng is a listed finding (the VNG reader trusts the segment
+// sizes, vector lengths and counts it finds in the file) the harness keeps
+// such inputs away from the reader, because a hit is not a clean failure: a
+// segment MemLength of 2^40 is a 1 TiB make(), and an array length of 2^40 in
+// a Lengths vector keeps one Read call looping and appending for hours.
+const (
+	segmentLimit = 32 << 20 // largest Segment.MemLength / Length let through
+	lengthsLimit = 1 << 21  // largest sum of the values of all Lengths vectors let through
+)
 
 // vngScreen opens the object's metadata (after the pre-flight) and returns the
-// largest Segment.MemLength / Segment.Length in it.
-func vngScreen(input []byte) (maxSeg uint64, err error) {
+// largest Segment.MemLength / Segment.Length in it and the sum of the
+// (non-negative) container lengths stored in its Lengths vectors.
+func vngScreen(input []byte) (maxSeg uint64, sumLengths uint64, err error) {
 	if p := catch(func() {
 		var o *vng.Object
 		o, err = vng.NewObject(bytes.NewReader(input))
 		if err != nil {
 			return
 		}
-		maxSeg = maxSegment(reflect.ValueOf(o.Metadata()), 0)
+		var lengths []vng.Segment
+		maxSeg = walkSegments(reflect.ValueOf(o.Metadata()), 0, &lengths)
+		if maxSeg > segmentLimit {
+			return
+		}
+		for _, seg := range lengths {
+			buf := make([]byte, seg.MemLength)
+			if seg.Read(o.DataReader(), buf) != nil {
+				continue
+			}
+			for len(buf) > 0 {
+				tag, n := binary.Uvarint(buf)
+				if n <= 0 || tag == 0 || tag-1 > uint64(len(buf)-n) {
+					break
+				}
+				if v := zed.DecodeInt(buf[n : n+int(tag-1)]); v > 0 {
+					sumLengths += uint64(v)
+				}
+				buf = buf[n+int(tag-1):]
+			}
+		}
 	}); p != nil {
-		return 0, fmt.Errorf("panic: %v", p.val)
+		return 0, 0, fmt.Errorf("panic: %v", p.val)
 	}
-	return maxSeg, err
+	return maxSeg, sumLengths, err
 }
 
 var segmentType = reflect.TypeOf(vng.Segment{})
 
-func maxSegment(v reflect.Value, depth int) uint64 {
+// walkSegments returns the largest MemLength/Length of the segments below v
+// and appends the segments stored in fields named Lengths.
+func walkSegments(v reflect.Value, depth int, lengths *[]vng.Segment) uint64 {
 	if depth > 200 || !v.IsValid() {
 		return 0
 	}
@@ -528,7 +563,7 @@ func maxSegment(v reflect.Value, depth int) uint64 {
 		if v.IsNil() {
 			return 0
 		}
-		return maxSegment(v.Elem(), depth+1)
+		return walkSegments(v.Elem(), depth+1, lengths)
 	case reflect.Struct:
 		if v.Type() == segmentType {
 			s := v.Interface().(vng.Segment)
@@ -538,13 +573,18 @@ func maxSegment(v reflect.Value, depth int) uint64 {
 			return 0
 		}
 		for i := 0; i < v.NumField(); i++ {
-			if v.Type().Field(i).IsExported() {
-				m = max(m, maxSegment(v.Field(i), depth+1))
+			f := v.Type().Field(i)
+			if !f.IsExported() {
+				continue
 			}
+			if f.Type == segmentType && f.Name == "Lengths" {
+				*lengths = append(*lengths, v.Field(i).Interface().(vng.Segment))
+			}
+			m = max(m, walkSegments(v.Field(i), depth+1, lengths))
 		}
 	case reflect.Slice:
 		for i := 0; i < v.Len(); i++ {
-			m = max(m, maxSegment(v.Index(i), depth+1))
+			m = max(m, walkSegments(v.Index(i), depth+1, lengths))
 		}
 	}
 	return m
